@@ -9,6 +9,7 @@ import (
 	"go/scanner"
 	"go/token"
 	"strings"
+	"unicode"
 )
 
 func panicShape(msg string) string {
@@ -342,31 +343,34 @@ func oracleC15(cx *CheckCtx, runs []*CaseRun) []Finding {
 			if err == nil {
 				squash := func(x string) string {
 					return strings.Map(func(r rune) rune {
-						if r <= ' ' || r == 0x7f {
+						if r <= ' ' || r == 0x7f || unicode.IsSpace(r) {
 							return -1
 						}
 						return r
 					}, x)
 				}
-				all := squash(strings.Join(comments, "\n"))
 				for _, t := range commentTexts(cr.Case) {
-					want := strings.TrimRight(t, " \t\n")
-					for _, line := range strings.Split(want, "\n") {
-						line = squash(line)
-						if line != "" && !strings.Contains(all, line) {
-							fs = append(fs, Finding{Property: "C15", Shape: "comment-text-lost", What: fmt.Sprintf("comment text %q not found in any comment of the output", line), Case: cr.Case.Text(), Observed: trunc(out)})
-						}
+					want := squash(t)
+					if want == "" {
+						continue
 					}
+					style := "//"
 					if strings.Contains(t, "\n") {
-						found := false
-						for _, cm := range comments {
-							if strings.HasPrefix(cm, "/*") && strings.Contains(cm, strings.TrimSpace(strings.Split(strings.TrimSpace(t), "\n")[0])) {
-								found = true
+						style = "/*"
+					}
+					found, foundStyle := false, false
+					for _, cm := range comments {
+						if strings.Contains(squash(cm), want) {
+							found = true
+							if strings.HasPrefix(cm, style) {
+								foundStyle = true
 							}
 						}
-						if !found && strings.TrimSpace(t) != "" {
-							fs = append(fs, Finding{Property: "C15", Shape: "multiline-not-block", What: "multi-line comment text not rendered in block style", Case: cr.Case.Text(), Observed: trunc(out)})
-						}
+					}
+					if !found {
+						fs = append(fs, Finding{Property: "C15", Shape: "comment-text-lost", What: fmt.Sprintf("comment text %q not found in any comment of the output", t), Case: cr.Case.Text(), Observed: trunc(out)})
+					} else if !foundStyle {
+						fs = append(fs, Finding{Property: "C15", Shape: "comment-style", What: fmt.Sprintf("comment text %q not rendered in %s style", t, style), Case: cr.Case.Text(), Observed: trunc(out)})
 					}
 				}
 			}
